@@ -1,18 +1,11 @@
 package scratch
-import ("testing";"fmt"
- xparser "github.com/bufbuild/protocompile/experimental/parser"
- "github.com/bufbuild/protocompile/experimental/report"
- "github.com/bufbuild/protocompile/experimental/source"
- "github.com/bufbuild/protocompile/experimental/token")
+import ("testing";"fmt";"strconv";"github.com/bufbuild/protocompile/verifexport")
 func TestS(t *testing.T){
- for _,lit:=range []string{"0.01e0",".01e0","0x.1","0x0.1","1e23","0.0_1e-3","12","1.5","0x1p3","1e400","0.05e3"}{
-	text := "option x = " + lit + ";\n"
-	rep := &report.Report{}
-	file, ok := xparser.Parse("c39.proto", source.NewFile("c39.proto", text), rep)
-	fmt.Printf("%s ok=%v ndiag=%d\n", lit, ok, len(rep.Diagnostics))
-	for _,d:=range rep.Diagnostics { fmt.Printf("   diag level=%v %s\n", d.Level(), d.Message()) }
-	for tok := range file.Stream().All() {
-		if tok.Kind()==token.Number { v,e:=tok.AsNumber().Float(); fmt.Printf("   tok %q valid=%v f=%v exact=%v\n", tok.Text(), tok.AsNumber().IsValid(), v,e) }
-	}
+ for _,s:=range []string{"0x2800000000000001p-1134","0x1.000000000000101p-1023","0x2800000000000001p-1134"}{
+  var d verifexport.Decimal
+  _,err:=d.Parse(s)
+  f,ex:=d.Float64()
+  w,_:=strconv.ParseFloat(s,64)
+  fmt.Printf("%-12s err=%v f=%v exact=%v want=%v\n",s,err,f,ex,w)
  }
 }
